@@ -33,14 +33,17 @@ type hOpts struct {
 	Replays    bool // replay of redeemed codes
 	NearMiss   bool // near-miss / duplicated state and code parameters (C04)
 	MaxSessions int // stop offering new logins beyond this many issued ids (0 = no limit)
+	Prefix      []seqx.Event // applied (silently) when a world is created: start from a non-initial state
+	OnlyLive    bool         // present only cookies of sessions that exist in the store (plus none when nothing exists)
 }
 
 type hSys struct {
 	W    *world.World
 	Dev  int
 	Last world.Result
-	// hooks for monitors
-	obs []hObs
+	// harness-side knowledge (maintained on replay too)
+	Presented     map[string]bool // every session id any principal has presented so far
+	IssuedCookies map[string]bool // every session id the service has put into a Set-Cookie so far
 }
 
 func (h *hSys) Close() { h.W.Close() }
@@ -59,6 +62,8 @@ type hObs struct {
 	NewCode   *world.Code
 	Now       time.Time
 	PreDump   string
+	PrePresented, PreIssued int
+	IssuedBefore map[string]bool
 }
 
 type hMonitor func(h *hSys, o *hObs, hist []seqx.Event)
@@ -182,6 +187,22 @@ func (o hOpts) model(monitors ...hMonitor) seqx.Model {
 					o.PreHad = true
 				}
 			}
+			if h.Presented == nil {
+				h.Presented = map[string]bool{}
+				h.IssuedCookies = map[string]bool{}
+			}
+			if sid != "" {
+				h.Presented[sid] = true
+			}
+			o.PrePresented, o.PreIssued = len(h.Presented), len(h.IssuedCookies)
+			preIssued := h.IssuedCookies
+			if live {
+				preIssued = map[string]bool{}
+				for k := range h.IssuedCookies {
+					preIssued[k] = true
+				}
+			}
+			o.IssuedBefore = preIssued
 			nReq := len(w.IdP.TokenReqs)
 			plan := world.Plan{}
 			if e.Plan != nil {
@@ -193,6 +214,9 @@ func (o hOpts) model(monitors ...hMonitor) seqx.Model {
 			}
 			h.Last = res
 			o.Res = res
+			if ns := w.SessionFromSetCookie(res); ns != "" && ns != "deleted" {
+				h.IssuedCookies[ns] = true
+			}
 			o.Calls = append([]world.EnvCall(nil), w.Env.Calls...)
 			o.TokenReqs = w.IdP.TokenReqs[nReq:]
 			// the harness browser follows a redirect to the authorization endpoint at once (the provider mints a code)
@@ -227,6 +251,10 @@ func (o hOpts) model(monitors ...hMonitor) seqx.Model {
 			}
 		}
 		all := append([]string{""}, cookies...)
+		if o.OnlyLive && len(cookies) > 0 {
+			all = cookies
+			stale = ""
+		}
 		if stale != "" {
 			all = append(all, stale)
 		}
@@ -445,7 +473,13 @@ func (o hOpts) model(monitors ...hMonitor) seqx.Model {
 		return w.Canon(sb.String())
 	}
 	return seqx.Model{
-		New:     func() seqx.Sys { return &hSys{W: world.New(o.Spec)} },
+		New: func() seqx.Sys {
+			h := &hSys{W: world.New(o.Spec)}
+			for i, e := range o.Prefix {
+				apply(h, e, o.Prefix[:i], false)
+			}
+			return h
+		},
 		Apply:   apply,
 		Enabled: enabled,
 		Canon:   canon,
